@@ -218,3 +218,25 @@ pub fn run(seed: u64, n: usize, sink: &mut Sink) {
         }
     }
 }
+
+/// developer aid: `vh dispdbg --seed S --n K` prints scenario K, the plans and the last snapshots
+pub fn debug_scenario(seed: u64, k: usize) {
+    let sc = scenario(seed, k);
+    println!("spec {}", sc.to_json());
+    let run = run_scenario(&sc).expect("net");
+    match &run.outcome {
+        DispOutcome::Ok(plans) => { for (i, p) in plans.iter().enumerate() { println!("plan train {}: {:?}", i + 1, p); } }
+        DispOutcome::ErrStuck(ids, m) => println!("stuck {:?} {}", ids, m),
+        DispOutcome::ErrOther(m) => println!("err {}", m),
+        DispOutcome::Panic(m) => println!("panic {}", m),
+        DispOutcome::Skipped(m) => println!("skipped {}", m),
+    }
+    for (si, s) in run.snaps.iter().enumerate() {
+        println!("--- snap {} {} train_curr {}", si, s.label, s.train_curr);
+        for (ti, t) in s.trains.iter().enumerate().skip(1) {
+            println!("  train {} fin {} blocked {} fixed {} free {} front {} back {} tu {} tun {} path {:?}", ti, t.finished, t.is_blocked, t.idx_fixed, t.idx_free, t.idx_front, t.idx_back, t.time_update, t.time_update_next,
+                t.path.iter().map(|d| (d.ty, d.link, d.time, d.auth_idx)).collect::<Vec<_>>());
+        }
+        for (l, st) in s.auths.iter().enumerate() { if st.len() > 1 { println!("  link {}: {:?}", l, st.iter().skip(1).map(|a| (a.train, a.ae, a.ax, a.ce, a.cx)).collect::<Vec<_>>()); } }
+    }
+}
